@@ -121,8 +121,104 @@ class TableTU:
     def lab(self, fn):
         return self.label.get(id(fn), fn.get("n") or "?")
 
+    # ---- who a piece of code belongs to (stable under lambda <-> named helper <-> private method refactorings)
+    def _index(self):
+        if getattr(self, "_root_of", None) is not None:
+            return
+        self._root_of, self._spec_of, self._callers = {}, {}, {}
+        fnodes = {id(f): f for _, f in self.funcs}
+        for q, f in self.funcs:
+            if id(f) in self._root_of:
+                continue
+            for _q2, f2 in cxx.nested_functions(f, q):
+                self._root_of.setdefault(id(f2), f)
+        for s in self.specs:
+            for _q, f in s.funcs:
+                self._spec_of[id(f)] = s
+            for f in s.members_ool.values():
+                for _q2, f2 in cxx.nested_functions(f, self.lab(f)):
+                    self._spec_of[id(f2)] = s
+        for q, f in self.funcs:
+            r = self._root_of[id(f)]
+            for x in cxx.own_walk(cir.body(f)):
+                if cir.is_call(x):
+                    d = self.resolve(x)
+                    if d is not None and id(d) in fnodes and d is not r:
+                        self._callers.setdefault(id(d), {})[id(r)] = r
+
+    def root_of(self, fn):
+        self._index()
+        return self._root_of.get(id(fn), fn)
+
+    def spec_of(self, fn):
+        self._index()
+        return self._spec_of.get(id(fn))
+
+    def callers(self, fn):
+        """root functions of the TU that call fn directly (from their body or from a lambda in it)"""
+        self._index()
+        return list(self._callers.get(id(self.root_of(fn)), {}).values())
+
+    def is_private_helper(self, fn):
+        """fn has callers, and cannot have any outside what is analysed here: a free function with internal linkage, or
+        a method of a table that only methods of the same table call"""
+        r = self.root_of(fn)
+        cs = self.callers(r)
+        if not cs:
+            return False
+        s = self.spec_of(r)
+        if s is None:
+            return bool(r.get("internal"))
+        return all(self.spec_of(c) is s for c in cs)
+
+    def owner(self, fn):
+        """The function a piece of code belongs to: a lambda belongs to the function it is written in, a private helper
+        with a single caller to that caller (transitively)."""
+        r = self.root_of(fn)
+        seen = set()
+        while id(r) not in seen:
+            seen.add(id(r))
+            cs = self.callers(r)
+            if len(cs) != 1 or not self.is_private_helper(r):
+                break
+            r = cs[0]
+        return r
+
+    def owner_label(self, fn):
+        o = self.owner(fn)
+        s = self.spec_of(o)
+        return self.short(s, o) if s is not None else self.lab(o)
+
+    def lock_subject(self, fn, var):
+        """What a lock local locks: the table whose lock method / mutex accessor produces it."""
+        if getattr(self, "_mid_spec", None) is None:
+            self._mid_spec = {}
+            for s in self.specs:
+                for mid in s.kl.method_ids():
+                    self._mid_spec[mid] = s
+        here = self.spec_of(fn)
+        for x in cir.walk(var):
+            if x.get("k") == "CXXMemberCallExpr":
+                f = cir.strip(cir.kids(x)[0])
+                s2 = self._mid_spec.get(f.get("mid")) if f is not None and f.get("k") == "MemberExpr" else None
+                if s2 is not None:
+                    return f"{TEMPLATE}<T>" if s2 is here else s2.name
+        return cxx.record_name_of_type(cxx.type_of(var)) or "lock"
+
+    def view(self, fn):
+        """(fn with the statement-level calls of private helpers of the TU expanded, ids of fn's call nodes expanded)"""
+        if getattr(self, "_views", None) is None:
+            self._views = {}
+        v = self._views.get(id(fn))
+        if v is None:
+            new, expanded, names = cxx.inline_calls(fn, self.resolve, pred=lambda h: self.is_private_helper(h) and
+                                                    self.spec_of(h) is None)
+            new.setdefault("file", fn.get("file") or self.tu)
+            v = self._views[id(fn)] = (new, expanded, names)
+        return v
+
     def short(self, s, fn):
-        """Function label relative to the template: GlobalTable<T>::AppendIfUnique:lambda"""
+        """Function label relative to the template: GlobalTable<T>::AppendIfUnique:lambda (constructs use owner_label)"""
         return self.lab(fn).replace(s.name, f"{TEMPLATE}<T>", 1)
 
     def resolve(self, call):
@@ -230,7 +326,7 @@ def rule_lock(T, res, TE):
             for name, node, how in ws:
                 inside = [v for v, reg, _ in regions if id(node) in reg]
                 same = [v for v in inside if lock_from_same_table(T, s, v)]
-                generic = f"{T.short(s, fn)}:write:{name}"
+                generic = f"{T.owner_label(fn)}:write:{name}"
                 if same:
                     TE.add("R-LOCK", generic, s.name, True, HDR, node.get("line"), None,
                            {"lock": same[0].get("n"), "how": how})
@@ -413,7 +509,7 @@ def rule_publish(T, res, TE):
             paths.explore(PublishRule(s, ev, cc, fn, region), None, fn)
             if not ev.ev:
                 raise AnalysisError(f"{T.lab(fn)}: publication of the count not visited")
-            TE.from_events("R-PUBLISH", T.short(s, fn), s.name, ev, HDR)
+            TE.from_events("R-PUBLISH", T.owner_label(fn), s.name, ev, HDR)
             # the copy function(s) of this instantiation
             for w in cc.values():
                 d = T.resolve(w)
@@ -624,6 +720,7 @@ def error_reach(T):
 def rule_no_error(T, res, TE):
     reach = error_reach(T)
     n = 0
+    nkey = {}
     spec_of = {}
     for s in T.specs:
         for q, fn in s.funcs:
@@ -635,13 +732,19 @@ def rule_no_error(T, res, TE):
             if s is not None and fn.get("k") != "CXXConstructorDecl" and any(
                     o.mid == s.count["id"] and o.kind in ("store", "rmw", "cas") for o in cxx.atomic_ops(cir.body(fn))):
                 # a registration function without any lock scope: vacuous here, reported by R-LOCK
-                TE.add("R-NO-ERROR-LOCKED", f"{T.short(s, fn)}:lock-region:<none>", s.name, True, HDR, fn.get("line"), None,
+                TE.add("R-NO-ERROR-LOCKED", f"{T.owner_label(fn)}:lock-region:<none>", s.name, True, HDR, fn.get("line"), None,
                        {"note": "no write-lock local in the registration function (see R-LOCK)"})
             continue
         fn.setdefault("file", T.tu)
         errvars = paths.error_msg_vars(fn)
         for var, region, stmts in regs:
             n += 1
+            # construct: <function the code belongs to>:lock-region:<table the lock is taken on> -- the same whether the
+            # region is written in a lambda, a named helper or the API function itself, whatever the lock local is called
+            base = f"{T.owner_label(fn)}:lock-region:{T.lock_subject(fn, var)}"
+            inst = (getattr(spec_of.get(id(fn)), "name", None), base)      # numbered per instantiation
+            nkey[inst] = nkey.get(inst, 0) + 1
+            rkey = base if nkey[inst] == 1 else f"{base}#{nkey[inst]}"
             chains = []
             external = set()
             for st in stmts:
@@ -676,10 +779,10 @@ def rule_no_error(T, res, TE):
                        + ": a handler that does not return through the frame (longjmp) leaves the mutex locked and the "
                          "per-thread lock count raised")
             if s is not None:
-                TE.add("R-NO-ERROR-LOCKED", f"{T.short(s, fn)}:lock-region:{var.get('n')}", s.name, not chains, file,
+                TE.add("R-NO-ERROR-LOCKED", rkey, s.name, not chains, file,
                        var.get("line"), msg, {"external_calls": sorted(external)[:12]})
             else:
-                key = f"{T.lab(fn)}:lock-region:{var.get('n')}"
+                key = rkey
                 if chains:
                     res.bad("R-NO-ERROR-LOCKED", key, file, var.get("line"), msg)
                 else:
@@ -738,7 +841,16 @@ def folds_case(d):
     return False
 
 
+def _nested_stmt(st):
+    """the statement in the nested view (norm.nest): early continue / break / return inside it are if-else structure"""
+    from .. import norm
+    v = norm.nest({"k": "FunctionDecl", "n": "<view>", "i": [{"k": "CompoundStmt", "line": st.get("line"), "i": [st]}]})
+    return [x for x in cir.kids(cir.body(v)) if x is not None][0]
+
+
 def rule_uniq(T, res, TE, primary, key_ids, reg_methods):
+    from .. import norm
+    from .c26 import counted_loop
     fold_done = False
     for s in T.specs:
         cms = count_methods(s)
@@ -750,13 +862,9 @@ def rule_uniq(T, res, TE, primary, key_ids, reg_methods):
                 reg = fn
         if reg is None:
             raise AnalysisError(f"{s.name}: registration function (publication of the count) not found")
-        pre = T.short(s, reg)
+        pre = T.owner_label(reg)
         body = cir.body(reg)
-        top = list(cir.kids(body))
         cc = copy_calls_in(T, s, reg)
-        copy_idx = [i for i, st in enumerate(top) if st is not None and any(id(x) in cc for x in cxx.own_walk(st))]
-        lock_idx = [i for i, st in enumerate(top) if st is not None and st.get("k") == "DeclStmt" and any(
-            v is not None and cxx.record_name_of_type(cxx.type_of(v)) in T.lock_classes for v in cir.kids(st))]
         # count local
         cvars = {}
         for n in cxx.own_walk(body):
@@ -766,58 +874,93 @@ def rule_uniq(T, res, TE, primary, key_ids, reg_methods):
                     op = cxx.atomic_op(cir.strip(defs[0][1]))
                     if (op is not None and op.kind == "load" and op.mid == s.count["id"]) or is_count_expr(s, cms, defs[0][1]):
                         cvars[n.get("id")] = n
+        # the scan: a loop counting a local from 0 up to the count local by one (for or while, c26.counted_loop)
         scan = None
-        for i, st in enumerate(top):
-            if st is None or st.get("k") != "ForStmt":
+        for lp in cxx.own_walk(body):
+            if lp.get("k") not in ("ForStmt", "WhileStmt"):
                 continue
-            ks = list(cir.kids(st)) + [None] * 5
-            init, _, cond, inc, lbody = ks[:5]
+            ks = list(cir.kids(lp))
+            cond = (ks + [None] * 5)[2] if lp.get("k") == "ForStmt" else ks[0]
             sd = cxx.cmp_sides(cond) if cond is not None else None
-            if not sd or sd[0] != "<" or cxx.ref_id(sd[2]) not in cvars:
+            if sd and sd[0] == ">":
+                sd = ("<", sd[2], sd[1])
+            if not sd or sd[0] not in ("<", "!=") or cxx.ref_id(sd[2]) not in cvars or cxx.ref_id(sd[1]) is None:
                 continue
-            iv = [d for d in cir.walk(init) if d.get("k") == "VarDecl" and d.get("id") == cxx.ref_id(sd[1])] if init else []
-            i0 = [c for c in cir.kids(iv[0]) if c is not None] if iv else []
-            incs = [x for x in cir.walk(inc) if x.get("k") == "UnaryOperator" and x.get("op") == "++" and
-                    iv and cxx.ref_id(cir.kids(x)[0]) == iv[0].get("id")] if inc is not None else []
-            other_w = [w for lv, w, h in cxx.writes(lbody) if iv and cxx.ref_id(lv) == iv[0].get("id")]
-            okr = bool(iv) and bool(i0) and cxx.const_int(i0[-1]) == 0 and len(incs) == 1 and not other_w and \
-                not any(x.get("k") == "ContinueStmt" for x in cxx.own_walk(lbody))
-            scan = (i, st, iv[0] if iv else None, okr, lbody)
+            ivid = cxx.ref_id(sd[1])
+            cl = counted_loop(body, lp, ivid)
+            scan = (lp, ivid, not cl["problems"] and cl["start"] == "0", ks[-1])
             break
-        ok_range = scan is not None and scan[3] and bool(copy_idx) and scan[0] < copy_idx[0] and \
-            (not lock_idx or lock_idx[0] < scan[0])      # a missing lock is R-LOCK's report
-        TE.add("R-UNIQ-SCAN", f"{pre}:scan-range", s.name, ok_range, HDR, (scan[1] if scan else reg).get("line"),
+        ok_range = False
+        if scan is not None and scan[2]:
+            lp = scan[0]
+            # under the lock (a missing lock is R-LOCK's report) ...
+            regs = lock_regions(T, reg)
+            locked = not regs or any(id(lp) in region for _v, region, _st in regs)
+            # ... and on every path to the copy: the copy lies in a statement that follows the loop in its statement list
+            par = cxx.enclosing_map(body)
+            a_ = lp
+            while id(a_) in par and par[id(a_)].get("k") == "CompoundStmt" and \
+                    [x for x in cir.kids(par[id(a_)]) if x is not None] == [a_]:
+                a_ = par[id(a_)]           # a block holding nothing but the loop
+            P = par.get(id(a_))
+            if P is None or P.get("k") != "CompoundStmt":
+                raise AnalysisError(f"{T.lab(reg)}: the uniqueness scan (line {lp.get('line')}) is a branch / body of another "
+                                    f"statement: whether it precedes the copy on every path is not decided")
+            sibs = list(cir.kids(P))
+            later = sibs[[i for i, x in enumerate(sibs) if x is a_][0] + 1:]
+            after = {id(x) for st in later if st is not None for x in cxx.own_walk(st)}
+            ok_range = locked and bool(cc) and all(cid in after for cid in cc)
+        TE.add("R-UNIQ-SCAN", f"{pre}:scan-range", s.name, ok_range, HDR, (scan[0] if scan else reg).get("line"),
                "registration has no scan `for (i = 0; i < count; ++i)` over the count loaded under the lock, placed after "
                "taking the lock and before copying the new object: an existing key can be missed and occupy two slots")
         if scan is None:
             continue
-        # key match inside the scan
+        # key match inside the scan, read in the nested view of the loop (early continue / return are if-else structure):
+        # the branch of the comparison on which the keys are equal
+        nbody = cir.kids(_nested_stmt(scan[0]))[-1]
         match = None
-        for n in cxx.own_walk(scan[4]):
-            if n.get("k") == "IfStmt":
-                c = list(cir.kids(n))
-                idx = (1 if n.get("hasInit") else 0) + (1 if n.get("hasVar") else 0)
-                cond = cir.strip(c[idx])
-                if cond is not None and cond.get("k") == "CallExpr" and len(cir.kids(cond)) == 3:
-                    k1, k2 = _key_call(T, cir.kids(cond)[1]), _key_call(T, cir.kids(cond)[2])
-                    if k1 and k2 and k1[0] == k2[0]:
-                        match = (n, cond, k1, k2, c[idx + 1:])
-                        break
+        for n in cxx.own_walk(nbody):
+            if n.get("k") != "IfStmt" or match is not None:
+                continue
+            _pre, cond, then, els = norm._if_parts(n)
+            for side, branch in ((True, then), (False, els)):
+                atoms = norm.split_cond(cond, side)
+                for atom, pol in atoms:
+                    e = cir.strip(cxx.resolve_local(atom, reg)) if cxx.ref_id(atom) else cir.strip(atom)
+                    if e is None or e.get("k") != "CallExpr" or len(cir.kids(e)) != 3:
+                        continue
+                    k1, k2 = _key_call(T, cir.kids(e)[1]), _key_call(T, cir.kids(e)[2])
+                    if not (k1 and k2 and k1[0] == k2[0]):
+                        continue
+                    if not pol:
+                        continue            # this side is reached when the keys differ
+                    if len(atoms) != 1:
+                        raise AnalysisError(f"{T.lab(reg)}: the key comparison at line {n.get('line')} is combined with other "
+                                            f"conditions: what happens on a key match is not decided")
+                    match = (n, e, k1, k2, branch)
         if match is None:
-            TE.add("R-UNIQ-SCAN", f"{pre}:key-match-ends-path", s.name, False, HDR, scan[1].get("line"),
+            TE.add("R-UNIQ-SCAN", f"{pre}:key-match-ends-path", s.name, False, HDR, scan[0].get("line"),
                    "the scan does not compare key(new object) with key(existing object) through one comparison call")
             continue
-        n, cond, k1, k2, br = match
+        n, cond, k1, k2, mbranch = match
+        br = [mbranch if mbranch is not None else {"k": "CompoundStmt", "line": n.get("line"), "i": []}]
         key_ids[s.name] = k1[0]
-        # the public registration method: the member whose body (or lambda) is the registration function
-        for name, ms in s.kl.methods.items():
-            d = s.kl.method(name)
-            if d is not None and any(f is reg for _, f in cxx.nested_functions(d, name)):
-                reg_methods[s.name] = d
+        # the registration entry points: the function the registration code belongs to and the methods of the table
+        # through which it is reached
+        entry = {}
+        work = [T.root_of(reg)]
+        while work:
+            f_ = work.pop()
+            if id(f_) in entry:
+                continue
+            entry[id(f_)] = f_
+            work.extend(c for c in T.callers(f_) if T.spec_of(c) is s)
+        reg_methods[s.name] = entry
+        ivid = scan[1]
         rets = [x for x in cxx.own_walk(br[0]) if x.get("k") == "ReturnStmt"]
         vals = [cir.kids(r)[0] if cir.kids(r) else None for r in rets]
-        good_vals = all(v is not None and (cxx.ref_id(v) == scan[2].get("id") or (cxx.const_int(v) or 0) < 0) for v in vals)
-        has_slot = any(v is not None and cxx.ref_id(v) == scan[2].get("id") for v in vals)
+        good_vals = all(v is not None and (cxx.ref_id(v) == ivid or (cxx.const_int(v) or 0) < 0) for v in vals)
+        has_slot = any(v is not None and cxx.ref_id(v) == ivid for v in vals)
         okm = cxx.always_ends(br[0], lambda c: cir.callee(c) in paths.NORETURN) and good_vals and has_slot
         TE.add("R-UNIQ-SCAN", f"{pre}:key-match-ends-path", s.name, okm, HDR, n.get("line"),
                "after a key match the registration does not always end the path with the existing slot or a negative "
@@ -934,19 +1077,39 @@ def _if_conds(fn):
 
 
 def sentinel_readers(T, s, key_id):
-    """Readers that end the lookup when key(element).empty(): [(fn, node)]."""
+    """Readers that end the lookup when key(element).empty(): [(fn, node)].
+
+    The test may be an `if` / loop condition or the condition of a returned `?:`, directly or through a single-definition
+    bool local, in either polarity (`if (k.empty()) return 0;`, `ok = !(p && k.empty()); return ok ? p : 0;`): what counts
+    is that the side on which the key is empty ends the path."""
+    from .. import norm
     out = []
     for q, fn in s.funcs:
         if lock_regions(T, fn) or fn.get("k") == "CXXConstructorDecl":
             continue
+        returned = {id(cir.strip(cir.kids(r)[0])) for r in cxx.own_walk(cir.body(fn))
+                    if r.get("k") == "ReturnStmt" and cir.kids(r) and cir.kids(r)[0] is not None}
+
+        def key_empty(x):
+            x = cir.strip(x)
+            if x is None or x.get("k") != "CXXMemberCallExpr" or cir.callee(x) != "empty":
+                return False
+            f = cir.strip(cir.kids(x)[0])
+            obj = cxx.resolve_local(_unwrap(cir.kids(f)[0]), fn) if f is not None and cir.kids(f) else None
+            kc = _key_call(T, obj)
+            return bool(kc) and kc[0] == key_id
         for n, cond, br in _if_conds(fn):
-            for x in cir.walk(cond):
-                if x.get("k") == "CXXMemberCallExpr" and cir.callee(x) == "empty":
-                    f = cir.strip(cir.kids(x)[0])
-                    obj = cxx.resolve_local(_unwrap(cir.kids(f)[0]), fn) if f is not None and cir.kids(f) else None
-                    kc = _key_call(T, obj)
-                    if kc and kc[0] == key_id and br and cxx.always_ends(br[0]):
-                        out.append((fn, n))
+            c = cxx.resolve_local(cond, fn) if cxx.ref_id(cond) else cond
+            for side in (True, False):
+                branch = br[0] if side else (br[1] if len(br) > 1 else None)
+                if not any(pol and key_empty(atom) for atom, pol in norm.split_cond(c, side)):
+                    continue
+                if n.get("k") == "ConditionalOperator":
+                    ends = id(n) in returned
+                else:
+                    ends = branch is not None and n.get("k") == "IfStmt" and cxx.always_ends(branch)
+                if ends:
+                    out.append((fn, n))
     return out
 
 
@@ -1006,10 +1169,16 @@ def nonempty_evidence(T, G, bases, field):
                                     if y.get("k") == "ArraySubscriptExpr" and cxx.ref_id(cir.kids(y)[0]) == p.get("id") and \
                                             cxx.const_int(cir.kids(y)[1]) == 0:
                                         return f"E3 validated by {d.get('n')}()"
-    # E4
-    par = cxx.enclosing_map(cir.body(G))
+    # E4 (read in the nested view: `if (s.empty()) continue; F = s.c_str();` is `if (!s.empty()) F = s.c_str();`)
+    from .. import norm
+    try:
+        nbody = cir.body(norm.nest(G, fatal=True))
+    except AnalysisError:
+        raise
+    except Exception as ex:       # a statement shape the nested view does not cover: this idiom cannot be read
+        raise AnalysisError(f"{T.lab(G)}: nested view not available ({type(ex).__name__}: {ex})")
     assigns = []
-    for lv, w, how in cxx.writes(cir.body(G)):
+    for lv, w, how in cxx.writes(nbody):
         if how == "assign" and _field_of(lv, bases) == field and w.get("k") == "BinaryOperator":
             rhs = cir.strip(cir.kids(w)[1])
             if rhs is not None and rhs.get("k") in ("CXXNullPtrLiteralExpr", "GNUNullExpr"):
@@ -1022,20 +1191,12 @@ def nonempty_evidence(T, G, bases, field):
             if rhs is not None and rhs.get("k") == "CXXMemberCallExpr" and cir.callee(rhs) == "c_str":
                 f = cir.strip(cir.kids(rhs)[0])
                 sid = cxx.ref_id(cir.kids(f)[0]) if f is not None and cir.kids(f) else None
-                x = w
-                while sid and id(x) in par:
-                    x = par[id(x)]
-                    if x.get("k") == "IfStmt":
-                        c = list(cir.kids(x))
-                        idx = (1 if x.get("hasInit") else 0) + (1 if x.get("hasVar") else 0)
-                        cond = cir.strip(c[idx])
-                        if cond is not None and cond.get("k") == "UnaryOperator" and cond.get("op") == "!":
-                            e = cir.strip(cir.kids(cond)[0])
-                            if e is not None and e.get("k") == "CXXMemberCallExpr" and cir.callee(e) == "empty":
-                                f2 = cir.strip(cir.kids(e)[0])
-                                if f2 is not None and cir.kids(f2) and cxx.ref_id(cir.kids(f2)[0]) == sid and \
-                                        any(y is w for y in cir.walk(c[idx + 1])):
-                                    okk = True
+                for g, pol in (norm.guards(nbody, w) or []) if sid else ():
+                    e = cir.strip(g)
+                    if not pol and e is not None and e.get("k") == "CXXMemberCallExpr" and cir.callee(e) == "empty":
+                        f2 = cir.strip(cir.kids(e)[0])
+                        if f2 is not None and cir.kids(f2) and cxx.ref_id(cir.kids(f2)[0]) == sid:
+                            okk = True
             good += okk
         if good == len(assigns):
             return "E4 assigned only from non-empty std::string"
@@ -1055,11 +1216,26 @@ def rule_key_nonempty(T, res, key_ids, reg_methods):
         fields = key_fields(keydef)
         if not fields:
             raise AnalysisError(f"{T.lab(keydef)}: key fields not identified")
-        M = reg_methods.get(s.name)
-        for q, G in T.funcs:
-            if any(f is G for _, f in s.funcs):
+        M = reg_methods.get(s.name) or {}
+        # private helpers of the TU (validation chain moved to a helper, registration loop moved to a function template) are
+        # read inside their callers; a helper all of whose calls were expanded has no obligations of its own
+        all_calls, expanded_calls = {}, set()
+        for q, F in T.funcs:
+            for x in cxx.own_walk(cir.body(F)):
+                if cir.is_call(x):
+                    d = T.resolve(x)
+                    if d is not None:
+                        all_calls.setdefault(id(d), []).append(id(x))
+            if T.spec_of(F) is None:
+                expanded_calls |= T.view(F)[1]
+        for q, G0 in T.funcs:
+            if any(f is G0 for _, f in s.funcs) or T.spec_of(G0) is not None:
                 continue
-            sites = [n for n in cxx.own_walk(cir.body(G)) if n.get("k") == "CXXMemberCallExpr" and T.resolve(n) is M]
+            if T.is_private_helper(G0) and all_calls.get(id(G0)) and all(c in expanded_calls for c in all_calls[id(G0)]):
+                continue
+            G = T.view(G0)[0]
+            sites = [n for n in cxx.own_walk(cir.body(G)) if n.get("k") == "CXXMemberCallExpr" and
+                     id(T.resolve(n) or G) in M]
             if not sites:
                 continue
             bases = set()
@@ -1076,7 +1252,7 @@ def rule_key_nonempty(T, res, key_ids, reg_methods):
                                 and (x.get("ref") or {}).get("n") != n.get("n"):
                             bases.add((x.get("ref") or {}).get("n"))
             G.setdefault("file", T.tu)
-            glab = T.lab(G)
+            glab = T.lab(G0)
             if sum(1 for _, g in T.funcs if T.lab(g) == glab) > 1:
                 glab = f"{glab}<{s.arg}>"          # instantiations of a function template
             for f in sorted(fields):
@@ -1086,7 +1262,7 @@ def rule_key_nonempty(T, res, key_ids, reg_methods):
                     res.ok("R-KEY-NONEMPTY", key, {"file": G.get("file") or T.tu, "line": sites[0].get("line"), "idiom": why})
                 else:
                     res.bad("R-KEY-NONEMPTY", key, G.get("file") or T.tu, sites[0].get("line"),
-                            f"{T.lab(G)} registers an object whose key can be `{f}` without establishing that it is a "
+                            f"{T.lab(G0)} registers an object whose key can be `{f}` without establishing that it is a "
                             f"non-empty string, but {T.short(s, sents[0][0])} treats an empty key as the end of the table: "
                             f"after registering `{f} == \"\"` every object in a later slot can no longer be found by key")
 
@@ -1334,9 +1510,9 @@ _COPY_IF = "      if (!CopyObject(block->objects[local_idx], obj, err)) {\n     
 
 MUTANTS = [
     # ---- must fire
-    {"id": "no-lock", "expect": ("R-LOCK", "AppendIfUnique:lambda:write:objects"),
+    {"id": "no-lock", "expect": ("R-LOCK", "AppendIfUnique:write:objects"),
      "edits": [(HDR, "      auto lock = LockExclusively();\n", "")]},
-    {"id": "lock-scope-too-small", "expect": ("R-LOCK", "AppendIfUnique:lambda:write:count_"),
+    {"id": "lock-scope-too-small", "expect": ("R-LOCK", "AppendIfUnique:write:count_"),
      "edits": [(HDR, "      auto lock = LockExclusively();\n\n      int count = count_.load(std::memory_order_acquire);",
                 "      int count;\n      {\n        auto lock = LockExclusively();\n        count = count_.load(std::memory_order_acquire);\n      }")]},
     {"id": "publish-before-copy", "expect": ("R-PUBLISH", "publish:count_:after-successful-copy"),
@@ -1356,10 +1532,10 @@ MUTANTS = [
      "edits": [(HDR, "    if (slot < 0 || slot >= nslot) {", "    if (slot < 0 || nslot < 0) {")]},
     {"id": "key-scan-not-bounded", "expect": ("R-READER-BOUND", "GetByKeyUnsafe:read:objects"),
      "edits": [(HDR, "          i < TableBlock<T>::kBlockSize && found_slot < nslot;", "          i < TableBlock<T>::kBlockSize;")]},
-    {"id": "error-in-locked-lambda", "expect": ("R-NO-ERROR-LOCKED", "AppendIfUnique:lambda:lock-region"),
+    {"id": "error-in-locked-lambda", "expect": ("R-NO-ERROR-LOCKED", "AppendIfUnique:lock-region"),
      "edits": [(HDR, "                          HumanReadableTypeName(), std::string(ObjectKey(obj)).c_str());\n            return -1;",
                 "                          HumanReadableTypeName(), std::string(ObjectKey(obj)).c_str());\n            mju_error(\"%s\", err);")]},
-    {"id": "error-in-copy-closure", "expect": ("R-NO-ERROR-LOCKED", "AppendIfUnique:lambda:lock-region"),
+    {"id": "error-in-copy-closure", "expect": ("R-NO-ERROR-LOCKED", "AppendIfUnique:lock-region"),
      "edits": [(PL, "      std::snprintf(err, sizeof(err), \"failed to allocate memory for resource provider prefix\");\n    }\n    return false;",
                 "      mju_error(\"failed to allocate memory for resource provider prefix\");\n    }\n    return false;")]},
     {"id": "bound-from-model", "expect": ("R-PROVENANCE", "mj_passive->mjp_getPluginAtSlotUnsafe:bound"),
@@ -1369,9 +1545,9 @@ MUTANTS = [
     {"id": "bound-redefined", "expect": ("R-PROVENANCE", "mjc_getSDF->mjp_getPluginAtSlotUnsafe:bound"),
      "edits": [("src/engine/engine_collision_sdf.c", "  const int nslot = mjp_pluginCount();\n  const int slot = m->plugin[instance];",
                 "  int nslot = mjp_pluginCount();\n  const int slot = m->plugin[instance];\n  if (slot >= nslot) nslot = slot + 1;")]},
-    {"id": "scan-from-one", "expect": ("R-UNIQ-SCAN", "AppendIfUnique:lambda:scan-range"),
+    {"id": "scan-from-one", "expect": ("R-UNIQ-SCAN", "AppendIfUnique:scan-range"),
      "edits": [(HDR, "      for (int i = 0; i < count; ++i, ++local_idx) {", "      for (int i = 1; i < count; ++i, ++local_idx) {")]},
-    {"id": "match-falls-through", "expect": ("R-UNIQ-SCAN", "AppendIfUnique:lambda:key-match-ends-path"),
+    {"id": "match-falls-through", "expect": ("R-UNIQ-SCAN", "AppendIfUnique:key-match-ends-path"),
      "edits": [(HDR, "          } else {\n            return i;\n          }", "          } else {\n            break;\n          }")]},
     {"id": "lookup-case-sensitive", "expect": ("R-UNIQ-SCAN", "GetByKeyUnsafe:comparator-agrees-with-registration"),
      "edits": [(HDR, "        if (CaseInsensitiveEqual(candidate_key, key)) {", "        if (std::operator==(candidate_key, key)) {")]},
@@ -1395,6 +1571,73 @@ MUTANTS = [
                 "      bool copied = CopyObject(block->objects[local_idx], obj, err);\n      if (!copied) {\n        return -1;\n      }\n")]},
     {"id": "ok-bound-assigned-later", "expect": None,
      "edits": [("src/engine/engine_passive.c", "    const int nslot = mjp_pluginCount();", "    int nslot;\n    nslot = mjp_pluginCount();")]},
+    # ---- refactored shapes (refactors/D-p2, D-p3): the same code as a named method / helper / template, inverted guards
+    {"id": "ok-registration-in-named-method", "expect": None,
+     "edits": [(HDR, "    int slot = [&]() {\n      auto lock = LockExclusively();\n",
+                "    const int slot = TryAppendLocked(obj, err);\n    if (slot >= 0) {\n      return slot;\n    }\n"
+                "    err[sizeof(err) - 1] = '\\0';\n    mju_error(\"%s\", err);\n    return slot;\n  }\n\n"
+                "  int TryAppendLocked(const T& obj, ErrorMessage& err) {\n    {\n      auto lock = LockExclusively();\n"),
+               (HDR, "      return count;\n    }();\n", "      return count;\n    }\n  }\n\n  int UnusedTail(const T& obj, ErrorMessage& err, int slot) {\n")]},
+    {"id": "ok-scan-match-inverted-continue", "expect": None,
+     "edits": [(HDR, "        if (CaseInsensitiveEqual(ObjectKey(obj), ObjectKey(existing))) {\n",
+                "        if (!CaseInsensitiveEqual(ObjectKey(obj), ObjectKey(existing))) {\n          continue;\n        }\n        {\n")]},
+    {"id": "ok-scan-match-result-in-local", "expect": None,
+     "edits": [(HDR, "        if (CaseInsensitiveEqual(ObjectKey(obj), ObjectKey(existing))) {\n",
+                "        const bool same_key = CaseInsensitiveEqual(ObjectKey(obj), ObjectKey(existing));\n        if (same_key) {\n")]},
+    {"id": "ok-sentinel-folded-into-return", "expect": None,
+     "edits": [(HDR, "    if (obj && ObjectKey(*obj).empty()) {\n      return nullptr;\n    }\n\n    return obj;",
+                "    const bool initialized = !(obj && ObjectKey(*obj).empty());\n    return initialized ? obj : nullptr;")]},
+    {"id": "ok-plugin-validation-in-helper", "expect": None,
+     "edits": [(PL, "int mjp_registerPlugin(const mjpPlugin* plugin) {\n  if (!plugin->name) {",
+                "static void CheckPluginFields(const mjpPlugin* plugin) {\n  if (!plugin->name) {"),
+               (PL, "              kMaxAttributes);\n  }\n\n  return GlobalTable<mjpPlugin>::GetSingleton().AppendIfUnique(*plugin);",
+                "              kMaxAttributes);\n  }\n}\n\nint mjp_registerPlugin(const mjpPlugin* plugin) {\n  CheckPluginFields(plugin);\n"
+                "  return GlobalTable<mjpPlugin>::GetSingleton().AppendIfUnique(*plugin);")]},
+    {"id": "ok-extension-loop-in-template", "expect": None,
+     "edits": [(PL, "// register a resource decoder\nvoid mjp_registerDecoder(",
+                "template <typename T>\nstatic void RegisterForEachExtension(T& object_copy, const char* extensions) {\n"
+                "  std::string extensions_str(extensions);\n  std::stringstream ss(extensions_str);\n  std::string extension;\n"
+                "  while (std::getline(ss, extension, '|')) {\n    if (extension.empty()) {\n      continue;\n    }\n"
+                "    object_copy.extension = extension.c_str();\n    GlobalTable<T>::GetSingleton().AppendIfUnique(object_copy);\n  }\n}\n\n"
+                "// register a resource decoder\nvoid mjp_registerDecoder("),
+               (PL, "    std::string extensions_str(decoder->extension);\n    std::stringstream ss(extensions_str);\n    std::string extension;\n"
+                    "    while (std::getline(ss, extension, '|')) {\n      if (!extension.empty()) {\n        decoder_copy.extension = extension.c_str();\n"
+                    "        GlobalTable<mjpDecoder>::GetSingleton().AppendIfUnique(decoder_copy);\n      }\n    }\n",
+                "    RegisterForEachExtension(decoder_copy, decoder->extension);\n"),
+               (PL, "    std::string extensions_str(encoder->extension);\n    std::stringstream ss(extensions_str);\n    std::string extension;\n"
+                    "    while (std::getline(ss, extension, '|')) {\n      if (!extension.empty()) {\n        encoder_copy.extension = extension.c_str();\n"
+                    "        GlobalTable<mjpEncoder>::GetSingleton().AppendIfUnique(encoder_copy);\n      }\n    }\n",
+                "    RegisterForEachExtension(encoder_copy, encoder->extension);\n")]},
+    {"id": "ok-load-lambda-as-named-function", "expect": None,      # the known finding keeps its construct key
+     "edits": [(PL, "void mj_loadAllPluginLibraries(const char* directory,\n                               mjfPluginLibraryLoadCallback callback) {\n"
+                    "  auto load_dso_and_call_callback = [&](const std::string& filename,\n                                        const std::string& dso_path) {\n",
+                "static void LoadLibraryAndNotify(const std::string& filename, const std::string& dso_path,\n"
+                "                                 mjfPluginLibraryLoadCallback callback) {\n  {\n"),
+               (PL, "      callback(filename.c_str(), first, count);\n    }\n  };\n",
+                "      callback(filename.c_str(), first, count);\n    }\n  }\n}\n\n"
+                "void mj_loadAllPluginLibraries(const char* directory,\n                               mjfPluginLibraryLoadCallback callback) {\n"),
+               (PL, "load_dso_and_call_callback(name.c_str(), dso_path.c_str());", "LoadLibraryAndNotify(name.c_str(), dso_path.c_str(), callback);", 99)]},
+    {"id": "ok-load-lock-guard-renamed", "expect": None,
+     "edits": [(PL, "      auto lock = plugin_table.LockExclusively();", "      auto table_guard = plugin_table.LockExclusively();")]},
+    # the helper validates nothing: the obligation of the API function is still open
+    {"id": "plugin-validation-helper-skips-name", "expect": ("R-KEY-NONEMPTY", "mjp_registerPlugin:key-nonempty:name"),
+     "edits": [(PL, "int mjp_registerPlugin(const mjpPlugin* plugin) {\n  if (!plugin->name) {\n    mju_error(\"plugin->name is a null pointer\");\n"
+                    "  } else if (plugin->name[0] == '\\0') {\n    mju_error(\"plugin->name is an empty string\");\n  } else if (plugin->nattribute < 0) {",
+                "static void CheckPluginFields(const mjpPlugin* plugin) {\n  if (plugin->nattribute < 0) {"),
+               (PL, "              kMaxAttributes);\n  }\n\n  return GlobalTable<mjpPlugin>::GetSingleton().AppendIfUnique(*plugin);",
+                "              kMaxAttributes);\n  }\n}\n\nint mjp_registerPlugin(const mjpPlugin* plugin) {\n  CheckPluginFields(plugin);\n"
+                "  return GlobalTable<mjpPlugin>::GetSingleton().AppendIfUnique(*plugin);")]},
+    {"id": "named-method-error-under-lock", "expect": ("R-NO-ERROR-LOCKED", "AppendIfUnique:lock-region"),
+     "edits": [(HDR, "    int slot = [&]() {\n      auto lock = LockExclusively();\n",
+                "    const int slot = TryAppendLocked(obj, err);\n    return slot;\n  }\n\n"
+                "  int TryAppendLocked(const T& obj, ErrorMessage& err) {\n    {\n      auto lock = LockExclusively();\n"),
+               (HDR, "      return count;\n    }();\n", "      return count;\n    }\n  }\n\n  int UnusedTail(const T& obj, ErrorMessage& err, int slot) {\n"),
+               (HDR, "                          HumanReadableTypeName(), std::string(ObjectKey(obj)).c_str());\n            return -1;",
+                "                          HumanReadableTypeName(), std::string(ObjectKey(obj)).c_str());\n            mju_error(\"%s\", err);")]},
+    {"id": "scan-match-inverted-falls-through", "expect": ("R-UNIQ-SCAN", "AppendIfUnique:key-match-ends-path"),
+     "edits": [(HDR, "        if (CaseInsensitiveEqual(ObjectKey(obj), ObjectKey(existing))) {\n",
+                "        if (!CaseInsensitiveEqual(ObjectKey(obj), ObjectKey(existing))) {\n          continue;\n        }\n        {\n"),
+               (HDR, "          } else {\n            return i;\n          }", "          }")]},
     # ---- fixes of the reported defects: the report must disappear and nothing else change
     {"id": "fix-key-lookup-stops-at-bound", "expect": None, "fixes": [("R-READER-BOUND", "GetByKeyUnsafe:read:next")],
      "edits": [(HDR, "      block = block->next;\n    }\n\n    return nullptr;\n  }\n\n  const T* GetAtSlot(",
